@@ -45,11 +45,13 @@ ASSUMPTIONS = [
     "drops it) is not generated",
     "every variant has at least two observations (otherwise the HP minimiser is not unique); all-missing variants "
     "and empty series are not generated; constraint sets are linearly independent (rank checked by the harness)",
+    "constraints are judged met within max(1e-9, 1e-13*smooth)*(1+|value|): the rounding residual of the library's "
+    "bordered linear solve grows in proportion to smooth (measured 2e-16*smooth)",
     "under log=True data, level constraints and change constraints (gross rates) are positive",
     "output spans are contiguous ranges within 6 periods of the data; only min/max of the span are meaningful to hpf",
     "hpf tolerance: |trend-ref| <= max(1e-9, 1e-14*cond, 1e-13*smooth) * (1+max|ref|) (in logarithms under log=True) "
     "with cond the condition number of the reduced (null-space) Hessian computed by the harness; measured library "
-    "error is below 2e-17*cond and 1e-16*smooth; the generator bounds cond <= ~1e10 by construction (smooth <= 1e6, "
+    "error is about 1e-17*cond and 2e-16*smooth at worst; the generator bounds cond <= ~1e10 by construction (smooth <= 1e6, "
     "filter span <= 60 periods)",
     "lonf objective convention is 1/2*||y-x||^2 + smooth*||D x||_1 (Kim-Koh-Boyd-Gorinevsky), D the first/second "
     "difference operator; the docstring of lonf is empty, the convention is taken from the dual QP in the code",
@@ -69,7 +71,7 @@ ASSUMPTIONS = [
 # ---------------------------------------------------------------------------
 
 IDENT_RTOL = 1e-12          # trend+gap == data
-CONSTR_TOL = 1e-9           # constraints met
+CONSTR_TOL = 1e-9           # constraints met (or REF_RTOL_LAMBDA * smooth: measured residual ~ 2e-16 * smooth)
 REF_RTOL_MIN = 1e-9         # reference comparison, floor
 REF_RTOL_COND = 1e-14       # ... or this times cond of the reduced Hessian
 REF_RTOL_LAMBDA = 1e-13     # ... or this times smooth (the library solves a bordered system with entries of size smooth)
@@ -84,7 +86,38 @@ DOC_DEFAULTS_FALLBACK = {"YEARLY": 100.0, "HALF-YEARLY": 400.0, "QUARTERLY": 160
 FREQ_DOC_NAME = {1: "YEARLY", 2: "HALF-YEARLY", 4: "QUARTERLY", 12: "MONTHLY", 365: "Otherwise", 0: "Otherwise"}
 
 
+_BLAS_PID = [None]
+
+
+def _single_thread_blas():
+    """Performance only: the matrices here are tiny and 16 shard processes each spinning a multi-threaded OpenBLAS
+    pool slow each other down by two orders of magnitude.  Results do not depend on this (never raises)."""
+    import os
+    if _BLAS_PID[0] == os.getpid():
+        return
+    _BLAS_PID[0] = os.getpid()
+    try:
+        import ctypes
+        libs = set()
+        with open("/proc/self/maps") as fh:
+            for line in fh:
+                m = re.search(r"(/\S*openblas\S*\.so\S*)", line)
+                if m:
+                    libs.add(m.group(1))
+        for path in sorted(libs):
+            lib = ctypes.CDLL(path)
+            for name in ("scipy_openblas_set_num_threads64_", "scipy_openblas_set_num_threads",
+                         "openblas_set_num_threads64_", "openblas_set_num_threads"):
+                fn = getattr(lib, name, None)
+                if fn is not None:
+                    fn(1)
+                    break
+    except Exception:  # noqa: BLE001 - optional speed-up only
+        pass
+
+
 def _ir():
+    _single_thread_blas()
     import irispie as ir
     return ir
 
@@ -370,7 +403,7 @@ def _hpf_case(draw):
     rows = _mask_rows(draw, n, nv, values)
     span = _draw_span(draw, n)
     level, change = draw(_constraints(n, span, log, base))
-    smooth = None if draw(st.integers(0, 7)) == 0 else draw(_SMOOTH)
+    smooth = None if draw(st.integers(0, 7)) == 7 else draw(_SMOOTH)
     return {
         "x": {"f": f, "start": _start(draw, f), "nv": nv, "rows": rows},
         "smooth": smooth, "log": log, "level": level, "change": change,
@@ -443,7 +476,7 @@ def _read_block(series, f, lo_pos, a, b, nv):
     return out, outside
 
 
-def _judge_hpf_result(col, tag, case, trend, gap, f, lo, sa, sb, e0, refblock, cond, lam, refobj, ys, diag=None):
+def _judge_hpf_result(col, tag, case, trend, gap, f, lo, sa, sb, e0, refblock, cond, lam, diag=None):
     """All assertions about one (trend, gap) pair returned for the output offsets sa..sb."""
     rows = case["x"]["rows"]
     n, nv, log = len(rows), case["x"]["nv"], case["log"]
@@ -556,8 +589,8 @@ def _check_hpf(case, diag=None):
     col.check((_snapshot(x), _snapshot(level), _snapshot(change)) == before, "hpf:function:input_modified",
               "the functional form changed the data or a constraint series")
     # ---- requested span ---------------------------------------------------
-    refobj, ys, refblock, cond = _hpf_reference(case, lam, e0, e1)
-    got = _judge_hpf_result(col, "hpf", case, trend, gap, f, lo, sa, sb, e0, refblock, cond, lam, refobj, ys, diag)
+    _, _, refblock, cond = _hpf_reference(case, lam, e0, e1)
+    got = _judge_hpf_result(col, "hpf", case, trend, gap, f, lo, sa, sb, e0, refblock, cond, lam, diag)
     if got is None or col.items:
         col.done()
     # ---- wide span: covers the whole filter span plus padding ----------------
@@ -569,23 +602,28 @@ def _check_hpf(case, diag=None):
     wcase["span"] = [w0, w1]
     wref, wys, wblock, wcond = _hpf_reference(wcase, lam, w0, w1)
     wtrend, wgap = api("hpf:function", ir.hpf, x, **kww)
-    wgot = _judge_hpf_result(col, "hpf:wide", case, wtrend, wgap, f, lo, w0, w1, w0, wblock, wcond, lam, wref, wys, diag)
+    wgot = _judge_hpf_result(col, "hpf:wide", case, wtrend, wgap, f, lo, w0, w1, w0, wblock, wcond, lam, diag)
     if wgot is None:
         col.done()
     T, G = got
     WT, WG = wgot
     fwd, _ = _tf(log)
     # ---- constraints met (all of them lie inside the wide span) -------------
+    ctol = max(CONSTR_TOL, REF_RTOL_LAMBDA * lam)
     for o, v in case["level"]:
         for k in range(nv):
             g = float(WT[o - w0, k])
-            col.check(abs(g - v) <= CONSTR_TOL * (1.0 + abs(v)), "hpf:level_constraint_not_met",
+            if diag is not None:
+                diag["constr"] = max(diag.get("constr", 0), abs(g - v) / (1.0 + abs(v)))
+            col.check(abs(g - v) <= ctol * (1.0 + abs(v)), "hpf:level_constraint_not_met",
                       lambda: f"trend at offset {o} variant {k} is {g!r}, level constraint {v!r}")
     for o, v in case["change"]:
         for k in range(nv):
             a_, b_ = float(WT[o - w0, k]), float(WT[o - 1 - w0, k])
             g = a_ / b_ if log else a_ - b_
-            col.check(abs(g - v) <= CONSTR_TOL * (1.0 + abs(v) + (0 if log else abs(a_))), "hpf:change_constraint_not_met",
+            if diag is not None:
+                diag["constr"] = max(diag.get("constr", 0), abs(g - v) / (1.0 + abs(v) + (0 if log else abs(a_))))
+            col.check(abs(g - v) <= ctol * (1.0 + abs(v) + (0 if log else abs(a_))), "hpf:change_constraint_not_met",
                       lambda: f"trend {'ratio' if log else 'difference'} at offset {o} variant {k} is {g!r}, change constraint {v!r}")
     # ---- projected gradient = 0 (first-order condition on the library's trend) -
     for k in range(nv):
@@ -935,7 +973,7 @@ def _check_lonf(case, diag=None):
 
 
 SUBCHECKS = [
-    HypSub("hpf", _hpf_case, _check_hpf, _classify_hpf, budget={"quick": 2400, "thorough": 80000}),
-    HypSub("hpf_line", _line_case, _check_line, _classify_line, budget={"quick": 800, "thorough": 20000}),
-    HypSub("lonf", _lonf_case, _check_lonf, _classify_lonf, budget={"quick": 1600, "thorough": 60000}),
+    HypSub("hpf", _hpf_case, _check_hpf, _classify_hpf, budget={"quick": 6000, "thorough": 120000}),
+    HypSub("hpf_line", _line_case, _check_line, _classify_line, budget={"quick": 1600, "thorough": 30000}),
+    HypSub("lonf", _lonf_case, _check_lonf, _classify_lonf, budget={"quick": 3200, "thorough": 80000}),
 ]
